@@ -65,6 +65,8 @@ def make_spec(rng):
     for k in range(1, noff + 1):
         units["dv0_%d" % k] = vel
     t_ref = None if rng.random() < 0.3 else float(np.round(rng.uniform(50000, 60000), 3))
+    if rng.random() < 0.06:
+        t_ref = 0.0            # times counted from zero: a reference epoch that is "falsy" but present
     sp = Spec(names, {k: units[k] for k in names}, np.float64, t_ref, poly, noff)
     sp.t_ref_scale = str(rng.choice(["tcb", "utc", "tdb"], p=[.5, .3, .2]))     # scale the epoch is *given* in
     return sp
@@ -458,13 +460,15 @@ def run(ctx):
     for j in ctx.cases(nf):
         rng = ctx.rng(500000 + j)
         spec = make_spec(rng)
+        if j % 10 == 3:
+            spec.t_ref = 0.0             # present but "falsy"
         cols = make_rows(spec, int(rng.choice([1, 3, 100])), rng)
         path = os.path.join(ctx.tmpdir, "rt%d.fits" % j)
         try:
             build_samples(spec, cols).write(path, overwrite=True)
             bad = compare_read(path, spec, [cols], fits=True)
             ctx.evaluations += 1
-            ctx.distinct.add(repr(("fits", spec.t_ref is None, len(spec.names))))
+            ctx.distinct.add(repr(("fits", "none" if spec.t_ref is None else "zero" if spec.t_ref == 0 else "epoch", len(spec.names))))
             if bad:
                 ctx.violation("fits-" + bad[0], bad[1], dict(index=j, columns=spec.names))
         except Exception as e:
